@@ -105,6 +105,17 @@ Check C16_cookie_is_bound_to_addresses :
      (k = cur \/ k = prev) /\ c = c' /\ l = l' /\ r = r').
 Print Assumptions C16_cookie_is_bound_to_addresses.
 
+(* no abort: with the clock in u32 range and at least cap/rate, and both timestamps in the
+   past, IpRateLimiter::check returns normally and leaves both timestamps in the past *)
+Theorem C16_limiter_never_aborts : forall cap rate, 0 < rate ->
+  forall z1 z2 t n, window cap rate <= t -> t < pow2 32 -> z1 <= t -> z2 <= t ->
+  exists b z1' z2', lim_check cap rate (z1, z2) t n = Ok (b, (z1', z2')) /\ z1' <= t /\ z2' <= t.
+Proof. exact limiter_never_aborts. Qed.
+Check C16_limiter_never_aborts : forall cap rate, 0 < rate ->
+  forall z1 z2 t n, window cap rate <= t -> t < pow2 32 -> z1 <= t -> z2 <= t ->
+  exists b z1' z2', lim_check cap rate (z1, z2) t n = Ok (b, (z1', z2')) /\ z1' <= t /\ z2' <= t.
+Print Assumptions C16_limiter_never_aborts.
+
 (* ---- hypotheses satisfiable, conclusions not vacuous ------------------------ *)
 (* a collision-free MAC exists in the model: the stand-in the check runs with *)
 Example ex_mac_inj : forall k d k' d', free_mac k d = free_mac k' d' -> k = k' /\ d = d'.
